@@ -434,7 +434,7 @@ let exec (s : t) (verbose : bool) (f : string array) (obs : string option) : str
     let (((d, b), e), evs) = batch_commit (get_db s) (get_batch s) in
     s.db <- Some d; s.batch <- Some b;
     (match e with None -> "ok" | Some e -> "err " ^ eerr_name e) ^ events_str evs
-  | "merge" ->
+  | "merge" | "mergebusy" ->
     (* the iteration order over the map of older files is observed from the implementation *)
     let o = match obs with Some o -> obs_head o | None -> "ok order" in
     let order_s = match split_first o "order" with (_, r) -> String.trim r in
